@@ -190,6 +190,37 @@ def e2e(ctx):
         ctx.count("e2e:invariant-case-error:" + type(e).__name__)
         ctx.note(f"invariant case error: {type(e).__name__}: {e}")
 
+    # invariant body with a loop whose trip count is read from storage; several frontier states, the loop is cut only on
+    # some of them (symbolic slot after set(x), concrete after one()/zero()): the cut must be reported whatever the order
+    # in which the frontier states are visited
+    def inv_body(k):
+        top, end = asm.fresh("itop"), asm.fresh("iend")
+        return (E.call_view(E.FIRST_CREATED, asm.selector("slot0()")) + [("push", 7), "AND", ("label", top), "DUP1", "ISZERO", ("ref", end), "JUMPI",
+                 ("push", 1), ("push", 0x80), "MLOAD", "ADD", ("push", 0x80), "MSTORE", ("push", 1), "SWAP1", "SUB", ("ref", top), "JUMP",
+                 ("label", end), "POP"] + asm.if_then(asm.eq_const([("push", 0x80), "MLOAD"], k), asm.panic(1)))
+
+    view = E.TFn("slot0()", [("push", 0), "SLOAD", ("push", 0), "MSTORE", ("push", 32), ("push", 0), "RETURN"], mutability="view")
+    setx = lambda name: E.TFn(f"{name}(uint256 x)", asm.calldata_arg(0) + [("push", 0), "SSTORE"], domains=[[0, 1, 5]])
+    const = lambda name, v: E.TFn(f"{name}()", [("push", v), ("push", 0), "SSTORE"], domains=[])
+    for tag, fns in (("sym-first", [setx("aset"), const("zone", 1), view]), ("sym-last", [const("aone", 1), setx("zset"), view]),
+                     ("sym-middle", [const("aone", 1), setx("mset"), const("zzero", 0), view])):
+        scn = E.Scenario("InvLoop2" + tag.replace("-", ""), [E.Target("Tgt", fns)], [E.Inv("invariant_count_not_five", inv_body(5))])
+        try:
+            desc, others = scn.build()
+            run = run_contract_offline(desc, others=others, loop=2, invariant_depth=1)
+            ctx.case(("e2e-invariant-frontier-loop", tag))
+            for r in run.results:
+                ctx.count(f"e2e:invariant-frontier-verdict-{r.exitcode}")
+                if r.exitcode == 0 and not ((r.num_bounded_loops or 0) > 0 or warned(run, "loop")):
+                    ctx.violation(f"C10|e2e|invariant-body-loop-cut-on-one-frontier-state-not-reported|{tag}",
+                                  "the invariant body loops slot0&7 times and panics after exactly 5; after set(x) the trip count is symbolic "
+                                  "and --loop 2 cuts it (set(5) violates the invariant), after the constant setters it is concrete: the test is "
+                                  "reported PASS without any loop-bound warning",
+                                  {"order": tag, "stdout": run.stdout[-800:]})
+        except Exception as e:  # noqa: BLE001
+            ctx.count("e2e:invariant-frontier-case-error:" + type(e).__name__)
+            ctx.note(f"invariant frontier case error ({tag}): {type(e).__name__}: {e}")
+
 
 def correspond(ctx):
     from vlib import coremodel, sevmcheck
